@@ -70,3 +70,13 @@ def kf_ok(ob_id, **args):
         if eval(code, {"any": any, "all": all, "len": len, "ord": ord, "range": range}, dict(args)):
             return False
     return True
+
+
+def pick(x, lo, hi):
+    """Case-split a small symbolic int into its concrete values by comparisons (each branch continues with a
+    plain Python int).  Use where the code under test only does arithmetic/slicing with the value: one path per
+    value is cheaper than carrying symbolic lengths through byte-string operations."""
+    for v in range(lo, hi):
+        if x == v:
+            return v
+    return hi
